@@ -1,0 +1,91 @@
+package node
+
+import (
+	"strconv"
+
+	"github.com/cosmos/iavl"
+	tmdb "github.com/tendermint/tm-db"
+)
+
+// The stores of the application are written one after the other when a block is committed;
+// the last-block record of the `rigo_app` database is written last.
+// If the process died in between, some stores already hold the version of the interrupted block
+// while the application (and the consensus engine, through Info) is still at the previous one.
+// rollbackStores is called before the controllers are opened:
+// it discards what was written for a block whose commit did not complete,
+// so that all stores are at `height` again and the block can simply be executed once more.
+func rollbackStores(dbDir string, height int64) error {
+	for _, name := range []string{"gov_params", "proposal", "frozen_proposal", "accounts", "delegatees", "frozen", "rewards"} {
+		if err := rollbackLedger(name, dbDir, height); err != nil {
+			return err
+		}
+	}
+	// (The reward hash of the stake controller needs no care: it is rewritten only at every 10th version,
+	// from the reward ledger of that very block, so a record left by the interrupted block is rewritten
+	// with the same value when the block is executed again and is not used before.)
+
+	// the EVM state: go back to the root hash recorded for `height`
+	evmMeta, err := tmdb.NewDB("heightRootHash", "goleveldb", dbDir)
+	if err != nil {
+		return err
+	}
+	defer evmMeta.Close()
+	if val, err := evmMeta.Get([]byte("lbh")); err != nil {
+		return err
+	} else if val != nil {
+		if bn, err := strconv.ParseInt(string(val), 10, 64); err != nil {
+			return err
+		} else if bn > height {
+			if err := evmMeta.SetSync([]byte("lbh"), []byte(strconv.FormatInt(height, 10))); err != nil {
+				return err
+			}
+		}
+	}
+	return nil
+}
+
+func rollbackLedger(name, dbDir string, height int64) error {
+	db, err := tmdb.NewDB(name, "goleveldb", dbDir)
+	if err != nil {
+		return err
+	}
+	defer db.Close()
+
+	tree, err := iavl.NewMutableTree(db, 0)
+	if err != nil {
+		return err
+	}
+	if ver, err := tree.Load(); err != nil {
+		return err
+	} else if ver <= height {
+		return nil
+	}
+
+	if height > 0 {
+		if _, err = tree.LoadVersionForOverwriting(height); err != nil {
+			return err
+		}
+		// load once more: this brings the index of the latest values (iavl's fast nodes) in line with `height`
+		_, err = tree.Load()
+		return err
+	}
+
+	// nothing has been committed yet: empty the store
+	var keys [][]byte
+	itr, err := db.Iterator(nil, nil)
+	if err != nil {
+		return err
+	}
+	for ; itr.Valid(); itr.Next() {
+		keys = append(keys, append([]byte(nil), itr.Key()...))
+	}
+	itr.Close()
+	batch := db.NewBatch()
+	defer batch.Close()
+	for _, k := range keys {
+		if err := batch.Delete(k); err != nil {
+			return err
+		}
+	}
+	return batch.WriteSync()
+}
